@@ -12,7 +12,7 @@ pub struct CmpOpts {
 }
 
 /// canonical per-turn observable shared by both sides
-#[derive(Clone, Debug, PartialEq)]
+#[derive(Clone, Debug)]
 pub enum Obs {
     Trace(u64),
     Print(String),
@@ -21,6 +21,24 @@ pub enum Obs {
     Break(Option<u64>),
     Reenter,
     ExtraIgnored,
+}
+
+/// Equality of observations. Warning *wording* is not part of any property: a warning's kind and name are
+/// extracted from the message text when possible ("?" / "" otherwise) and then only compared when both sides
+/// have them; the line is always compared.
+impl PartialEq for Obs {
+    fn eq(&self, other: &Obs) -> bool {
+        match (self, other) {
+            (Obs::Trace(a), Obs::Trace(b)) => a == b,
+            (Obs::Print(a), Obs::Print(b)) => a == b,
+            (Obs::Break(a), Obs::Break(b)) => a == b,
+            (Obs::Reenter, Obs::Reenter) | (Obs::ExtraIgnored, Obs::ExtraIgnored) => true,
+            (Obs::Warning(k1, n1, l1), Obs::Warning(k2, n2, l2)) => {
+                l1 == l2 && (k1 == k2 || k1 == "?" || k2 == "?") && (n1 == n2 || n1.is_empty() || n2.is_empty())
+            }
+            _ => false,
+        }
+    }
 }
 
 pub fn parse_warning(msg: &str) -> (String, String) {
@@ -123,4 +141,172 @@ pub fn compare_turns(real: &RealRun, model: &ModelRun, o: CmpOpts) -> Result<usi
         ));
     }
     Ok(n)
+}
+
+
+/// Tolerant form of the comparison, used only after `compare_turns` found a difference: it decides whether
+/// the difference is merely *where the turn boundaries fall* (which the properties do not fix) or a real one.
+///
+/// Flattened: the run is cut into segments at the turns that consume a reply; per segment the non-trace
+/// records must be equal in order; the state after each segment, the variables/arrays at those points and
+/// the final outcome must be equal; with tracing on, the collapsed trace must equal the lines the model
+/// passes through.
+pub fn compare_flat(real: &RealRun, model: &ModelRun, o: CmpOpts) -> Result<(), String> {
+    fn segments_real(run: &RealRun) -> Vec<(Vec<Obs>, String, Option<Vec<String>>)> {
+        let mut segs = vec![];
+        let mut cur: Vec<Obs> = vec![];
+        let mut last: (String, Option<Vec<String>>) = ("start".into(), None);
+        for t in &run.turns {
+            if t.was_reply {
+                segs.push((std::mem::take(&mut cur), last.0.clone(), last.1.clone()));
+            }
+            cur.extend(real_obs(&t.outs).into_iter().filter(|x| !matches!(x, Obs::Trace(_))));
+            let st = match (&t.res, t.state) {
+                (Res::Err(e), _) => format!("error {} {:?}", e.kind, e.line),
+                (Res::Panic(_), _) => "panic".to_string(),
+                (_, InterpreterState::Running) => "running".to_string(),
+                (_, InterpreterState::AwaitingInput) => "awaiting".to_string(),
+                (_, _) => "idle".to_string(),
+            };
+            last = (st, t.digest.clone());
+        }
+        segs.push((cur, last.0, last.1));
+        segs
+    }
+    fn segments_model(run: &ModelRun, o: CmpOpts) -> Vec<(Vec<Obs>, String, Option<Vec<String>>)> {
+        let mut segs = vec![];
+        let mut cur: Vec<Obs> = vec![];
+        let mut last: (String, Option<Vec<String>>) = ("start".into(), None);
+        for t in &run.turns {
+            if t.was_reply {
+                segs.push((std::mem::take(&mut cur), last.0.clone(), last.1.clone()));
+            }
+            cur.extend(model_obs(&t.events, CmpOpts { tracing: false, warnings: o.warnings }));
+            let st = match &t.status {
+                Status::Failed(f) => format!("error {} {:?}", f.kind, f.line),
+                Status::Running => "running".to_string(),
+                Status::AwaitingInput => "awaiting".to_string(),
+                _ => "idle".to_string(),
+            };
+            last = (st, t.digest.clone());
+        }
+        segs.push((cur, last.0, last.1));
+        segs
+    }
+    let capped = real.capped || model.capped;
+    let rs = segments_real(real);
+    let ms = segments_model(model, o);
+    if rs.len() != ms.len() && !capped {
+        return Err(format!("the real run consumed {} replies, the model {}", rs.len() - 1, ms.len() - 1));
+    }
+    let n = rs.len().min(ms.len());
+    for i in 0..n {
+        let last = i + 1 == n;
+        if capped && last {
+            // a capped run is cut at different places: compare as prefixes
+            let k = rs[i].0.len().min(ms[i].0.len());
+            if rs[i].0[..k] != ms[i].0[..k] {
+                return Err(format!("segment {}: outputs differ (capped run): real {:?} model {:?}", i + 1, rs[i].0, ms[i].0));
+            }
+            continue;
+        }
+        if rs[i].0 != ms[i].0 {
+            return Err(format!("segment {} (between replies): real records {:?}, model {:?}", i + 1, rs[i].0, ms[i].0));
+        }
+        if rs[i].1 != ms[i].1 {
+            return Err(format!("after segment {}: real is `{}`, model `{}`", i + 1, rs[i].1, ms[i].1));
+        }
+        if let (Some(a), Some(b)) = (&rs[i].2, &ms[i].2) {
+            if a != b {
+                return Err(format!("after segment {}: variables/arrays differ", i + 1));
+            }
+        }
+    }
+    if o.tracing && !capped {
+        let mut collapsed: Vec<u64> = vec![];
+        for t in &real.turns {
+            for x in &t.outs {
+                if let Out::Trace(l) = x {
+                    if collapsed.last() != Some(l) {
+                        collapsed.push(*l);
+                    }
+                }
+            }
+        }
+        if collapsed != model.lines_visited {
+            return Err(format!("collapsed trace {:?} differs from the lines the model passes through {:?}", collapsed, model.lines_visited));
+        }
+    }
+    Ok(())
+}
+
+/// C09's tolerant oracle (tracing must be on): every real call must consist of the records of a contiguous
+/// run of model units with AT MOST ONE statement unit (an IF with the statement chain it selects is one
+/// unit); `:` separators may be their own call, be merged into a neighbouring call, or leave no trace.
+pub fn align_calls(real: &RealRun, model: &ModelRun) -> Result<(), String> {
+    let o = CmpOpts { tracing: true, warnings: false };
+    let units: Vec<(Vec<Obs>, bool)> = model.turns.iter().map(|t| (model_obs(&t.events, o), t.separator)).collect();
+    let capped = real.capped || model.capped;
+    // set of model positions the real run may be at before each call (a separator's trace record is
+    // indistinguishable from the trace of a record-less statement on the same line, hence a set)
+    let mut at: std::collections::BTreeSet<usize> = std::collections::BTreeSet::new();
+    at.insert(0);
+    for (ci, call) in real.turns.iter().enumerate() {
+        let obs = real_obs(&call.outs);
+        let mut next: std::collections::BTreeSet<usize> = std::collections::BTreeSet::new();
+        let mut overflow = false;
+        let mut two_statements = false;
+        // explore (unit index, position in obs, statements consumed)
+        let mut stack: Vec<(usize, usize, u8)> = at.iter().map(|i| (*i, 0usize, 0u8)).collect();
+        let mut seen: std::collections::BTreeSet<(usize, usize, u8)> = Default::default();
+        while let Some((i, pos, st)) = stack.pop() {
+            if !seen.insert((i, pos, st)) {
+                continue;
+            }
+            if pos == obs.len() {
+                next.insert(i);
+            }
+            let Some((ev, sep)) = units.get(i) else {
+                if pos < obs.len() {
+                    overflow = true;
+                }
+                continue;
+            };
+            let matches = obs.len() - pos >= ev.len() && obs[pos..pos + ev.len()] == ev[..];
+            if *sep {
+                stack.push((i + 1, pos, st)); // the separator left no record
+                if matches && pos < obs.len() {
+                    stack.push((i + 1, pos + ev.len(), st));
+                }
+            } else if matches && pos < obs.len() {
+                if st == 0 {
+                    stack.push((i + 1, pos + ev.len(), 1));
+                } else {
+                    two_statements = true;
+                }
+            }
+        }
+        if next.is_empty() {
+            if capped && overflow {
+                return Ok(());
+            }
+            return Err(if two_statements {
+                format!("call {} executed more than one statement: records {:?}", ci + 1, obs)
+            } else {
+                format!("call {}: records {:?} cannot be matched with at most one statement of the model run", ci + 1, obs)
+            });
+        }
+        at = next;
+    }
+    if !capped {
+        let done = at.iter().any(|i| units[*i..].iter().all(|u| u.1));
+        if !done {
+            return Err(format!("the real run ended before the model's {} statement units were executed", units.len()));
+        }
+        let (rk, mk) = (real.final_res().outcome(), model.outcome());
+        if rk != mk {
+            return Err(format!("final outcome {:?} vs model {:?}", rk, mk));
+        }
+    }
+    Ok(())
 }
